@@ -797,8 +797,9 @@ BOXES = [
     ([0.5, -1.0], [0.5, 1.0]),
     ([-2.0], [2.0]),
     ([0.1, -1.0, 3.0], [0.3, -0.9, 1e3]),
+    ([100.0, -2001.0], [101.0, -2000.0]),  # far from the origin: spread much smaller than magnitude
 ]
-BOXES2 = BOXES[:3]
+BOXES2 = BOXES[:3] + [BOXES[7]]
 FR = [0.0, 0.25, 0.5, 1.0]
 ZROWS = [-2.0, -1.0, 0.0, 1.0, 2.0]
 # fractions with pairwise distinct subset sums (so different elite sets have different means)
